@@ -431,11 +431,40 @@ func ruleAErrMap(p *Program, r *Reporter) {
 			r.Unknown(token.NoPos, side+" mapper", "no function of the root package receives the "+side+" error of the API functions")
 			return
 		}
+		sites := mapperSites(p)[side]
 		for _, fn := range mappers {
 			fnName := fn.Name()
 			for _, s := range srcs {
 				key := side + " " + s.name
-				pub, cats, why := classifyError(p, fn, s.name)
+				// once per distinct set of constant arguments the API functions pass on this side
+				var pub string
+				var cats []string
+				why := ""
+				seenSets := map[string]bool{}
+				catSet := map[string]bool{}
+				for _, cs := range append(sites[fn], nil) {
+					if cs == nil && len(seenSets) > 0 {
+						break
+					}
+					sig := fmt.Sprint(cs)
+					if seenSets[sig] {
+						continue
+					}
+					seenSets[sig] = true
+					pb, ct, w := classifyErrorWith(p, fn, s.name, cs)
+					if w != "" {
+						why = w
+						break
+					}
+					pub = pb
+					for _, c := range ct {
+						catSet[c] = true
+					}
+				}
+				for c := range catSet {
+					cats = append(cats, c)
+				}
+				sort.Strings(cats)
 				if why != "" {
 					r.Unknown(s.pos, key, fnName+": "+why)
 					continue
@@ -459,8 +488,13 @@ func ruleAErrMap(p *Program, r *Reporter) {
 				}
 				r.OK(s.pos, key, fmt.Sprintf("%s → %s → %s", fnName, pub, sent))
 			}
-			if side == "eval" {
-				// the evaluation-side mapper must not be able to produce the static categories
+			shared := false
+			for _, o := range map[string][]*ssa.Function{"parse": evalMappersOf(p), "eval": parseMappersOf(p)}[side] {
+				shared = shared || o == fn
+			}
+			if side == "eval" && !shared {
+				// the evaluation-side mapper must not be able to produce the static categories (for a mapper shared by
+				// both sides the classification above, made with each side's own arguments, decides)
 				bad := ""
 				for _, ret := range returnsOf(fn) {
 					if mi, ok := ret.Results[0].(*ssa.MakeInterface); ok {
@@ -716,6 +750,55 @@ func usedAsValue(v ssa.Value) bool {
 
 // errorMappers finds the root-package functions that receive the error of parser.Parse / evaluator.Evaluate
 // (directly in an API function or in a root-package helper) and return an error.
+// mapperSites: for each side ("parse", "eval") and mapper, the constant arguments each call site passes besides the
+// error (a mapper shared by both sides is told by a flag which side it serves).
+func mapperSites(p *Program) map[string]map[*ssa.Function][]map[int]constant.Value {
+	out := map[string]map[*ssa.Function][]map[int]constant.Value{"parse": {}, "eval": {}}
+	parseName := p.Parser.PkgPath + ".Parse"
+	evalName := p.Eval.PkgPath + ".Evaluate"
+	for _, fn := range p.ReachFuncs(p.Root) {
+		for _, b := range fn.Blocks {
+			for _, in := range b.Instrs {
+				c, ok := in.(*ssa.Call)
+				if !ok {
+					continue
+				}
+				callee := calleeOf(&c.Call)
+				if callee == nil || p.PkgOf(callee) != p.Root {
+					continue
+				}
+				side := ""
+				for _, a := range c.Call.Args {
+					if ex, ok := a.(*ssa.Extract); ok {
+						if src, ok := ex.Tuple.(*ssa.Call); ok {
+							switch calleeFullName(&src.Call) {
+							case parseName:
+								side = "parse"
+							case evalName:
+								side = "eval"
+							}
+						}
+					}
+				}
+				if side == "" {
+					continue
+				}
+				consts := map[int]constant.Value{}
+				for i, a := range c.Call.Args {
+					if k, ok := a.(*ssa.Const); ok && k.Value != nil {
+						consts[i] = k.Value
+					}
+				}
+				out[side][callee] = append(out[side][callee], consts)
+			}
+		}
+	}
+	return out
+}
+
+func parseMappersOf(p *Program) []*ssa.Function { a, _ := errorMappers(p); return a }
+func evalMappersOf(p *Program) []*ssa.Function  { _, b := errorMappers(p); return b }
+
 func errorMappers(p *Program) (parseM, evalM []*ssa.Function) {
 	seenP, seenE := map[*ssa.Function]bool{}, map[*ssa.Function]bool{}
 	parseName := p.Parser.PkgPath + ".Parse"
